@@ -56,6 +56,8 @@ func TaskExecutor.Cancel
   requires t != nil && unlocked(t.queuedElementsMutex)
   modifies everything
   ghost after call QueueElement.Cancel: live = upd(live, queuedElement, false)
+  -- after Cancel nothing is registered under the identifier (a second Cancel has nothing to report)
+  ghost before unlock: assert !has(t.queuedElements.m, identifier)
   ensures unlocked(t.queuedElementsMutex)
 
 -- the wrapper of one scheduled task: runs the callback, then (under the mutex) its element is finished
@@ -211,4 +213,13 @@ func Executor.startBackgroundWorkers$1
   loop 1 invariant drained <==> currentEntry == nil
   ghost before call WaitGroup.Done: assert drained
   ghost at return: assert drained
+-- Executor.Shutdown hands the queue the flags it was given, combined by bitwise or (a single flag: that flag; none: 0) -
+-- a flag is a mask, not a bit position
+func Executor.Shutdown
+  opt only-ghost-asserts
+  requires t != nil && t.queue != nil
+  modifies everything
+  ghost before call Queue.Shutdown: assert len(optionalShutdownFlags) == 0 ==> len(arg1) == 1 && arg1[0] == 0
+  ghost before call Queue.Shutdown: assert len(optionalShutdownFlags) == 1 ==> len(arg1) == 1 && arg1[0] == bitor(0, optionalShutdownFlags[0])
+  loop 1 invariant (rangeindex == 0 - 1 ==> shutdownFlags == 0) && (rangeindex == 0 ==> shutdownFlags == bitor(0, optionalShutdownFlags[0]))
 @*/
